@@ -550,4 +550,14 @@ theorem posinf_text_counterexample :
      | _ => false) = true := by
   constructor <;> decide +kernel
 
+/-- **C12-K9 in the text model, NaN**: the state of `nan_not_restored_counterexample` (one float port holding the
+    quiet NaN 7fc00000) is saved as the line `/f nan (nan)`; `load_from_file` on that text returns a negative
+    result. -/
+theorem nan_text_counterexample :
+    k9App.saveText (0, 3, 1) (1, 2, 3) k9StateNaN = .ok (lit "% RT OSC v0.3.1 savefile\n% k9 v1.2.3\n/f nan (nan)") ∧
+    (match k9App.loadText (lit "% RT OSC v0.3.1 savefile\n% k9 v1.2.3\n/f nan (nan)") k9App.init with
+     | .ok .fail => true
+     | _ => false) = true := by
+  constructor <;> decide +kernel
+
 end Rtosc.C12
